@@ -563,3 +563,75 @@ func (e *Engine) tagOf(t types.Type) int {
 	e.tagNames[id] = s
 	return id
 }
+
+// ---- nested structs of the same type inside one object ---------------------------------------------------------
+//
+// A struct-typed field lives at its owner's address (offset-0 rule) and its fields are keyed by the nested struct's
+// type ("position.line").  That identifies two nested structs of the same type inside one owner (parser.pt.position
+// and parser.maxFailPos are both `position`): a write to one would be read back from the other.  Where an owner has
+// the same struct type under two of its fields, every access through those fields is keyed with the path from the
+// owner: "parser.maxFailPos~position.line".  Write sets (effects, assigns) name the unqualified key and cover all
+// copies (matchKey strips the qualifier).
+const nestSep = "~"
+
+// computeAmbiguous finds the (owner, field) pairs that need qualification.
+func (e *Engine) computeAmbiguous() {
+	e.ambiguous = map[string]bool{}
+	sc := e.P.Pkg.Types.Scope()
+	var nested func(t types.Type, out map[string]int, depth int)
+	nested = func(t types.Type, out map[string]int, depth int) {
+		st, ok := t.Underlying().(*types.Struct)
+		if !ok || depth > 6 || e.isOpaqueStruct(t) || isAtomicValue(t) {
+			return
+		}
+		out[e.structName(t)]++
+		for i := 0; i < st.NumFields(); i++ {
+			nested(st.Field(i).Type(), out, depth+1)
+		}
+	}
+	for _, name := range sc.Names() {
+		tn, ok := sc.Lookup(name).(*types.TypeName)
+		if !ok {
+			continue
+		}
+		st, ok := tn.Type().Underlying().(*types.Struct)
+		if !ok {
+			continue
+		}
+		total := map[string]int{}
+		per := make([]map[string]int, st.NumFields())
+		for i := 0; i < st.NumFields(); i++ {
+			per[i] = map[string]int{}
+			nested(st.Field(i).Type(), per[i], 0)
+			for k, v := range per[i] {
+				total[k] += v
+			}
+		}
+		for i := 0; i < st.NumFields(); i++ {
+			for k := range per[i] {
+				if total[k] > 1 {
+					e.ambiguous[e.structName(tn.Type())+"."+st.Field(i).Name()] = true
+				}
+			}
+		}
+	}
+}
+
+// nestPrefix: the qualifier for the fields of the struct stored under fullKey.
+func (e *Engine) nestPrefix(fullKey string) string {
+	if i := strings.LastIndex(fullKey, nestSep); i >= 0 {
+		return fullKey[:i+len(nestSep)]
+	}
+	if e.ambiguous[fullKey] {
+		return fullKey + nestSep
+	}
+	return ""
+}
+
+// baseKey strips the qualifier.
+func baseKey(k string) string {
+	if i := strings.LastIndex(k, nestSep); i >= 0 {
+		return k[i+len(nestSep):]
+	}
+	return k
+}
